@@ -1,5 +1,6 @@
 import RxModel.Catalog
 import RxModel.LSplit
+import RxModel.Numeric
 /-!
 # Operators defined through others, exactly as the code defines them (over `Val`)
 
@@ -77,31 +78,27 @@ def minmax (isMax : Bool) (key : F1) (r : Bool) : Stage :=
       let b ← if isMax then Val.lt acc k else Val.lt k acc
       pure (if b then k else acc)) .none r none
 
-/-- rxsci/math/variance.py: Welford accumulator `(m, s, k)` -/
+instance : NatCast Float := ⟨Float.ofNat⟩
+
+/-- the Welford state kept in the scan's tuple `(m, s, k)` (`m = None` before the first item) -/
+def wstOfVal (acc : Val) : Option (WSt Float) :=
+  match (acc.nth 0).toFloat?, (acc.nth 1).toFloat?, (acc.nth 2) with
+  | some m, some s, .int k => some ⟨m, s, k.toNat⟩
+  | _, _, _ => none
+
+def wstToVal (st : WSt Float) : Val := Val.tup [Val.flt st.m, Val.flt st.s, .int st.k]
+
+/-- rxsci/math/variance.py: Welford accumulator `(m, s, k)`, computed by the generic `wstep` at Float -/
 def welford (key : F1) : F2 := fun acc i => do
-  let m := acc.nth 0
-  let s := acc.nth 1
-  let k ← Val.add (acc.nth 2) (.int 1)
   let x ← key i
-  if m = .none then pure (Val.tup [x, s, k])
-  else
-    let d ← Val.sub x m
-    let q ← Val.div d k
-    let m' ← Val.add m q
-    let d' ← Val.sub x m'
-    let p ← Val.mul d d'
-    let s' ← Val.add s p
-    pure (Val.tup [m', s', k])
+  match x.toFloat? with
+  | none => .error "TypeError"
+  | some xf => pure (wstToVal (wstep (wstOfVal acc) xf))
 
 def variance (key : F1) (r : Bool) : Pipe :=
   .ofList [
     scan (welford key) (Val.tup [.none, .int 0, .int 0]) r none,
-    map (fun acc => do
-      let small ← Val.lt (acc.nth 2) (.int 2)
-      if small then pure (Val.flt 0.0)
-      else
-        let n1 ← Val.sub (acc.nth 2) (.int 1)
-        Val.div (acc.nth 1) n1)]
+    map (fun acc => pure (Val.flt (wvar (wstOfVal acc))))]
 
 def sqrtMap : Stage := map (fun v => if v = .none then pure .none else Val.sqrt v)
 
@@ -116,8 +113,8 @@ def powV (v : Val) (n : Nat) : Except Err Val :=
   | _ => .error "TypeError"
 
 /-- CPython 3.12 built-in `sum(xs)` (start = int 0): exact integer phase while the items are ints;
-from the first float on, Neumaier compensated summation of the floats (`ints` are added plainly);
-the compensation is added at the end when it is non-zero and finite. -/
+the first float is added with an ordinary `+`; from then on Neumaier compensated summation of the
+floats (ints are added plainly); the compensation is added at the end when non-zero and finite. -/
 def pySumF (xs : List Val) (f c : Float) : Except Err Val :=
   match xs with
   | [] => pure (Val.flt (if c != 0.0 && c.isFinite then f + c else f))
@@ -135,7 +132,7 @@ def pySumI (xs : List Val) (acc : Int) : Except Err Val :=
   | [] => pure (.int acc)
   | .int i :: r => pySumI r (acc + i)
   | .bool b :: r => pySumI r (acc + (if b then 1 else 0))
-  | .float b :: r => pySumF (.float b :: r) (Float.ofInt acc) 0.0
+  | .float b :: r => pySumF r (Float.ofInt acc + Float.ofBits b) 0.0   -- the first float is added plainly (PyNumber_Add)
   | _ => .error "TypeError"
 
 def pySum (xs : List Val) : Except Err Val := pySumI xs 0
